@@ -77,6 +77,15 @@ Theorem C06_buffer_is_its_unread_bytes : forall os s s',
     fold_left Buffer.astep os (Buffer.contents (Buffer.st_h s) (Buffer.st_b s)).
 Proof. exact BufferRefine.buffer_refines_list. Qed.
 
+(* a message is written in many pieces (one binary.Write per field): whatever the pieces and whatever capacities the
+   runtime picks along the way, the buffer afterwards holds what it held followed by the pieces in order *)
+Theorem C06_pieces_concatenate_in_any_buffer : forall ws s s',
+  BufferRefine.WF (Buffer.st_h s) (Buffer.st_b s) ->
+  Buffer.bsteps s (map (fun w => Buffer.BWrite (fst w) (snd w)) ws) = Some s' ->
+  BufferRefine.WF (Buffer.st_h s') (Buffer.st_b s') /\
+  Buffer.contents (Buffer.st_h s') (Buffer.st_b s') = Buffer.contents (Buffer.st_h s) (Buffer.st_b s) ++ concat (map snd ws).
+Proof. exact BufferRefine.writes_concatenate. Qed.
+
 (* a Write fails only if the runtime hands out too small an array *)
 Theorem C06_write_appends : forall nc h b bs,
   BufferRefine.WF h b -> (Buffer.unread b + List.length bs <= nc)%nat ->
@@ -101,6 +110,7 @@ Proof. split; [apply BufferRefine.new_buffer_wf; cbn; lia | vm_compute; reflexiv
 
 Print Assumptions C06_buffer_is_its_unread_bytes.
 Print Assumptions C06_write_appends.
+Print Assumptions C06_pieces_concatenate_in_any_buffer.
 Print Assumptions C06_append_only_context_free.
 Print Assumptions C06_failure_context_free.
 Print Assumptions C06_sequences_concatenate.
